@@ -500,16 +500,13 @@ Definition keep_entries (del : list fname) (es : list pfile) : list pfile :=
   filter (fun e => negb (in_names (p_name e) del)) es.
 Definition gone_entries (del : list fname) (es : list pfile) : list pfile :=
   filter (fun e => in_names (p_name e) del) es.
-Definition strict_before (leb : pfile -> pfile -> bool) (g k : pfile) : bool := leb g k && negb (leb k g).
-(* everything deleted comes before everything kept: in mtime order (ties allowed) before D18,
-   strictly in (mtime, path) order after D18 -- the "contiguous most-recent suffix" clause *)
+(* everything deleted comes before everything kept in the heap order of the variant: by mtime
+   before D18, by (mtime, path) after D18 -- the "contiguous most-recent suffix" clause.  (Distinct
+   files of one directory have distinct paths, so "before or equal" is "strictly before" there.) *)
 Definition oldest_first (v : variant) (gone kept : list pfile) : bool :=
-  forallb (fun g => forallb (fun k => if v_fix18 v then strict_before key_leb g k else mtime_leb g k) kept) gone.
+  forallb (fun g => forallb (fun k => heap_leb v g k) kept) gone.
 Definition max_mtime (es : list pfile) : N := fold_right (fun e a => N.max (p_mtime e) a) 0 es.
-Definition oracle_set_step (v : variant) (es : list pfile) (o : sop) (del : list fname) : bool :=
-  let kept := keep_entries del es in
-  let gone := gone_entries del es in
-  (length gone =? length del)%nat &&
+Definition oracle_set_core (v : variant) (o : sop) (gone kept : list pfile) : bool :=
   match o with
   | ODelOlder now dur =>
       forallb (fun e => p_mtime e <? now - dur) gone && forallb (fun e => negb (p_mtime e <? now - dur)) kept
@@ -517,14 +514,17 @@ Definition oracle_set_step (v : variant) (es : list pfile) (o : sop) (del : list
       (sumN (map p_len kept) <=? mx) && oldest_first v gone kept &&
       match gone with
       | [] => true
-      | _ => existsb (fun g => (if v_fix18 v then forallb (fun g' => key_leb g' g) gone
-                                else p_mtime g =? max_mtime gone)
+      | _ => existsb (fun g => forallb (fun g' => heap_leb v g' g) gone
                                && (mx <? sumN (map p_len kept) + p_len g)) gone
       end
   | ODelOldest =>
       match gone with [g] => oldest_first v gone kept | _ => false end
-  | _ => match del with [] => true | _ => false end
+  | _ => match gone with [] => true | _ => false end
   end.
+Definition oracle_set_step (v : variant) (es : list pfile) (o : sop) (del : list fname) : bool :=
+  let kept := keep_entries del es in
+  let gone := gone_entries del es in
+  (length gone =? length del)%nat && oracle_set_core v o gone kept.
 
 (* specification-side tracking used by the driver between two oracle evaluations: the directory
    as the implementation left it, and the closed files the set must hold *)
@@ -543,3 +543,12 @@ Definition track_entries (v : variant) (prefix : bytes) (fs : list file) (es : l
 Definition ow_old_order (v : variant) (olds : list pfile) (alive : list fname) : bool :=
   oldest_first v (filter (fun e => negb (in_names (p_name e) alive)) olds)
                  (filter (fun e => in_names (p_name e) alive) olds).
+
+(* writer oracle, age clause (boolean form of c19_age_bound): after an event written at [now], no
+   closed log file is older than the keep-age, the age counted from the time the set knows -- the
+   mtime found at start-up for files of earlier runs, the rotation time for files of this run *)
+Definition ow_age (keep_age : option N) (now : N) (closed : list pfile) : bool :=
+  match keep_age with
+  | None => true
+  | Some d => forallb (fun e => now - d <=? p_mtime e) closed
+  end.
